@@ -148,7 +148,7 @@ pub fn judge(_part: &str, case: &Case, tally: &mut Tally) -> Verdict {
     spec_judge(case, &SpecOpts { own: Class::Cursor, scrollback: false }, tally, &mut on_step)
 }
 
-fn gen_random(src: &mut Src, _i: usize) -> Case {
+pub fn gen_random(src: &mut Src, _i: usize) -> Case {
     let mut case = gen::structured_case(src, true, true, 12, 6);
     // finish with a burst of cursor commands
     let (c, r) = last_size(&case);
